@@ -160,7 +160,7 @@ def run(ctx):
     import c13
     ctx.include(c13.run, ('R13.4',), 'R20.8')
     # a sized link read waits for all of its bytes whatever the record / segment boundaries (rule R13.1): a PDU split over two TLS records is not truncated
-    ctx.include(c13.run, ('R13.1',), 'R20.6')
+    ctx.include(c13.run, ('R13.1', 'R13.5', 'R13.7'), 'R20.6')
 
     # ---- R20.9 silence is not the end of the session: the readiness wait has no timeout whose expiry would leave the loop ---------
     wf = ctx.body('mstsc_rs::wait_for_fd')
